@@ -133,6 +133,39 @@ def direct_checks():
                     or s.global_epoch != len(s.metrics_history['train_loss']):
                 bad.append(dict(case=f'validation batch count below zero (set through the {how})', violated='a phase that ran no batch wrote history '
                                 'entries (or the training series are off)', new_entries=grown, global_epoch=s.global_epoch))
+        # (a') an epoch whose training LOSS is not finite is an epoch like any other: every series of its phase gets its entry
+        for special in (float('inf'), float('nan')):
+            calls = []
+
+            def flagged(r, f, x, calls=calls, special=special):
+                calls.append(1)
+                base = sum((ri ** 2).mean() for ri in r)
+                return base + (special if len(calls) in (3, 4) else 0.0)          # the two training batches of the second epoch
+            s = make(n_batches_train=2, n_batches_valid=0, loss_fn=flagged, metrics={'m': lambda u, t: (u ** 2).mean()})
+            s.fit(3, tqdm_file=None)
+            lens = {k: len(v) for k, v in s.metrics_history.items() if k.startswith('train')}
+            if set(lens.values()) != {3} or s.global_epoch != 3:
+                bad.append(dict(case=f'second epoch has training loss {special}', violated='the series of the training phase do not all have one entry per epoch',
+                                lengths=lens, global_epoch=s.global_epoch))
+        # (b') a callback that itself calls fit() on the same solver (a nested refinement run): the outer call keeps counting its own epochs
+        seen, inner_seen = [], []
+
+        def nested(solver):
+            seen.append((solver.local_epoch, solver._max_local_epoch))
+            if solver.local_epoch == 2 and not inner_seen:
+                inner_seen.append('start')
+                solver.fit(3, callbacks=[lambda s_: inner_seen.append(s_.local_epoch)], tqdm_file=None)
+        s = make(n_batches_train=1, n_batches_valid=1)
+        try:
+            s.fit(4, callbacks=[nested], tqdm_file=None)
+            outer = [e for e, _ in seen]
+            if inner_seen != ['start', 1, 2, 3] or len(s.metrics_history['train_loss']) != s.global_epoch or s.global_epoch != 7 \
+                    or any(e > 4 for e in outer) or outer[:2] != [1, 2] or len(outer) != 4 or outer != sorted(set(outer)) or outer[-1] != 4:
+                bad.append(dict(case='a callback calls fit(3) on the same solver during epoch 2 of fit(4)', violated='local epochs of the outer call are not 1..4 '
+                                '(or the counters are off)', outer_local_epochs=outer, inner=inner_seen, global_epoch=s.global_epoch,
+                                train_entries=len(s.metrics_history['train_loss'])))
+        except Exception as e:
+            bad.append(dict(case='a callback calls fit() on the same solver', error=f'{type(e).__name__}: {e}'))
         # (c) callbacks run once per epoch in the given order - also when a monitor is passed the deprecated way
         log = []
 
